@@ -110,7 +110,7 @@ func c18Run(rc *core.RunCtx) {
 		jobs = append(jobs, job{p, false, 1})
 	}
 	for _, p := range scope {
-		if rc.Quick() && !(strings.HasSuffix(p.Name, "2") || strings.HasSuffix(p.Name, "3")) {
+		if rc.Quick() && !strings.HasSuffix(p.Name, "2") {
 			continue
 		}
 		jobs = append(jobs, job{p, true, 2})
